@@ -29,6 +29,26 @@ Theorem C19_auth_holds : forall ch lk t r ev es,
 Proof. exact auth_holds. Qed.
 Print Assumptions C19_auth_holds.
 
+(* (1') the same over several connections, the challenge being an element of a stream of nonces:
+   the accepted answer signs THIS connection's nonce, and — the nonces being pairwise distinct — it is
+   not the answer recorded on another connection, whatever the connections announce about themselves *)
+Theorem C19_auth_fresh_holds : forall nonces all i c es,
+  NoDup nonces -> conn_result nonces all i c = (ROkTrue, es) ->
+  exists n a, nth_error nonces i = Some n /\ sremote_of nonces all i c = Ans a /\
+              proof_ok n a = true /\ a_sig_over a = n /\ peer_row_ok a = true /\
+              entitled n (sc_tt c) (sremote_of nonces all i c) = Some (a_key a) /\ In (EBind (a_key a)) es /\
+              (forall k, In (EBind k) es \/ In (MInviteAccepted k) es \/ In (MConnected k) es -> k = a_key a) /\
+              (forall j, sc_remote c = SReplay j -> j = i).
+Proof. exact auth_fresh. Qed.
+Print Assumptions C19_auth_fresh_holds.
+
+(* the session oracle (freshness of the observed challenges, every connection judged against its own
+   challenge, replays refused) holds on everything the model observes for a repetition-free stream *)
+Theorem C19_session_holds : forall nonces conns, length nonces = length conns -> NoDup nonces ->
+  spec_session conns (map zn nonces ++ run_conns nonces conns 0 conns) = true.
+Proof. exact session_spec. Qed.
+Print Assumptions C19_session_holds.
+
 (* (2) a remote that is not entitled (wrong key, replayed answer, another peer's valid key on an
    allowed-peer token, malformed peer row, no answer) gets nothing but a disconnect *)
 Theorem C19_fail_holds : forall ch lk t r ev,
